@@ -59,16 +59,80 @@ package nat
 //@ func (m *Manager) buildFlags
 //@   modifies nothing
 
-// Logger entry points: assumed to touch only the Logger's own buffers/files (trusted frame;
-// the Logger never holds a reference to the Manager or to an Allocation).
+// ---- logging.go: the compliance log (C10, "every allocation and release produces a log record") ----
+//
+// Each buffer is owned by its mutex; the output file state by mu. What is decided: LogAllocation /
+// LogDeallocation put exactly one record carrying the subscriber, addresses and port block of the
+// event into the live buffer (when logging is enabled); a flush hands every buffered record to the
+// writer exactly once and the records handed over are no longer reachable from the live buffer
+// (later log calls cannot overwrite records that are still being written). Formatting and the
+// file/rotation layer are trusted frames.
+//@ type Logger
+//@   owns bufferMu: buffer
+//@   owns portBlockBufferMu: portBlockBuffer
+//@   owns mu: currentFile currentSize
+
+//@ func (l *Logger) formatEntry
+//@   trusted formatting (encoding/json, fmt)
+//@   modifies nothing
+//@ func (l *Logger) formatPortBlockEntry
+//@   trusted formatting (encoding/json, fmt)
+//@   modifies nothing
+//@ func (l *Logger) writeWithRotation
+//@   trusted file layer (io.Writer, rotation)
+//@   modifies l.currentFile, l.currentSize
+//@   sets logLines = logLines + 1
+
+// the record is in the live buffer when the critical section ends
+//@ func (l *Logger) addEntry
+//@   modifies l.buffer
+//@   ensures unlockedN(1, len(l.buffer)) == lockedN(1, len(l.buffer)) + 1 && unlockedN(1, l.buffer[len(l.buffer)-1]) == entry
+//@   sets natRecords = natRecords + 1
+
+//@ func (l *Logger) addPortBlockEntry
+//@   modifies l.portBlockBuffer, l.currentFile, l.currentSize
+//@   ensures unlockedN(1, len(l.portBlockBuffer)) == lockedN(1, len(l.portBlockBuffer)) + 1 && unlockedN(1, l.portBlockBuffer[len(l.portBlockBuffer)-1]) == entry
+//@   sets pbRecords = pbRecords + 1
+
+// every buffered record goes to the writer exactly once; the live buffer restarts empty on storage
+// the flush does not share
+//@ func (l *Logger) FlushPortBlocks
+//@   modifies l.portBlockBuffer, l.currentFile, l.currentSize
+//@   ghost logLines mathint = 0
+//@   ensures logLines == lockedN(1, len(l.portBlockBuffer))
+//@   ensures unlockedN(1, len(l.portBlockBuffer)) == 0
+//@   ensures lockedN(1, cap(l.portBlockBuffer)) > 0 ==> unlockedN(1, arr(l.portBlockBuffer)) != lockedN(1, arr(l.portBlockBuffer))
+
+//@ loop Logger.FlushPortBlocks#1
+//@   invariant logLines == ridx
+
+//@ func (l *Logger) Flush
+//@   modifies l.buffer, l.currentFile, l.currentSize
+//@   ghost logLines mathint = 0
+//@   ensures logLines == lockedN(1, len(l.buffer))
+//@   ensures unlockedN(1, len(l.buffer)) == 0
+//@   ensures lockedN(1, cap(l.buffer)) > 0 ==> unlockedN(1, arr(l.buffer)) != lockedN(1, arr(l.buffer))
+
+//@ loop Logger.Flush#1
+//@   invariant logLines == ridx
+
+// one record per event (when logging is enabled)
 //@ func (l *Logger) LogAllocation
-//@   trusted
 //@   requires alloc != nil
 //@   modifies l.buffer, l.portBlockBuffer, l.currentFile, l.currentSize
+//@   ghost natRecords mathint = 0
+//@   ghost pbRecords mathint = 0
+//@   ensures l.enabled ==> natRecords + pbRecords == 1
+//@   ensures !l.enabled ==> natRecords + pbRecords == 0
+//@   sets logAllocs = logAllocs + 1
 
 //@ func (l *Logger) LogDeallocation
-//@   trusted
 //@   modifies l.buffer, l.portBlockBuffer, l.currentFile, l.currentSize
+//@   ghost natRecords mathint = 0
+//@   ghost pbRecords mathint = 0
+//@   ensures l.enabled ==> natRecords + pbRecords == 1
+//@   ensures !l.enabled ==> natRecords + pbRecords == 0
+//@   sets logDeallocs = logDeallocs + 1
 
 // Subscriber ids: stable per private address and never shared by two addresses.
 //@ func (m *Manager) getOrCreateSubscriberID
@@ -96,6 +160,12 @@ package nat
 //@   ensures err == nil && fresh(result) ==> forall k uint32 :: k in m.allocations && m.allocations[k] == result ==> !locked(k in m.allocations)
 //@   ensures err == nil && fresh(result) ==> forall k uint32 :: locked(k in m.allocations) ==> k in m.allocations && m.allocations[k] == locked(m.allocations[k])
 //@   ensures err == nil ==> m.portRangeStart <= result.PortStart && result.PortStart <= result.PortEnd && result.PortEnd <= m.portRangeEnd && result.PortEnd - result.PortStart + 1 == m.portsPerSubscriber
+// "every allocation ... produces a log record": the call that creates a block logs it exactly once;
+// a call that returns the existing block or fails logs nothing
+//@   ghost logAllocs mathint = 0
+// (the allocating path is the one that did not find the subscriber at the first look-up)
+//@   ensures err == nil && !lockedN(1, privKey in m.allocations) && old(m.natLogger) != nil ==> logAllocs == 1
+//@   ensures err != nil || lockedN(1, privKey in m.allocations) ==> logAllocs == 0
 
 //@ loop Manager.AllocateNAT#1
 //@   invariant selectedPool == nil
@@ -111,6 +181,10 @@ package nat
 // of one subscriber only one goes on to decrement the pool counter
 // (release 1 is the early return of the not-found path, release 2 ends the section of a found one)
 //@   ensures ip4 != nil && lockedN(1, privKey in m.allocations) ==> unlockedN(2, privKey !in m.allocations)
+// "every ... release produces a log record": exactly one, by the call that took the allocation out
+//@   ghost logDeallocs mathint = 0
+//@   ensures ip4 != nil && lockedN(1, privKey in m.allocations) && m.natLogger != nil ==> logDeallocs == 1
+//@   ensures ip4 == nil || !lockedN(1, privKey in m.allocations) ==> logDeallocs == 0
 //@   sets relNAT = relNAT + 1
 
 //@ func (m *Manager) GetAllocation
